@@ -141,6 +141,26 @@ func runC17(w *W) {
 		f := f
 		probes = append(probes, probe{fmt.Sprintf("column-after-dot#%d", i), func(k string) string { return f[0] + k + f[1] }, func(k string) string { return "t." + k }})
 	}
+	// what follows the name, and what separates it from `.` / AS (comments are tokens for the lexer: a comment or a line
+	// break between the dot or AS and the name must change nothing)
+	for i, f := range []string{" WITH TOTALS", " FINAL", " SAMPLE 0.1", " ARRAY JOIN a", " PREWHERE 1", " GROUP BY a WITH TOTALS", " ORDER BY 1", " LIMIT 1", " UNION ALL SELECT 2", " SETTINGS a = 1",
+		" FORMAT Null", " INTO OUTFILE 'f'", ", u", " JOIN u USING (a)", " WINDOW w AS ()", " QUALIFY 1", " HAVING 1", " OFFSET 1", " EXCEPT SELECT 2", ""} {
+		f := f
+		probes = append(probes, probe{fmt.Sprintf("table-alias-follow#%d", i), func(k string) string { return "SELECT 1 FROM t AS " + k + f }, aliasLine})
+	}
+	for i, f := range []string{" FROM t", ", 2", " WHERE 1", " UNION ALL SELECT 2", " FORMAT Null", " INTO OUTFILE 'f'", " SETTINGS a = 1", " ORDER BY 1", " LIMIT 1", " GROUP BY 1", " HAVING 1", " WINDOW w AS ()", " INTERSECT SELECT 2"} {
+		f := f
+		probes = append(probes, probe{fmt.Sprintf("column-alias-follow#%d", i), func(k string) string { return "SELECT 1 AS " + k + f }, aliasLine})
+	}
+	for i, g := range []string{"/* c */", " /* c */ ", "--x\n", " \n ", "\t", "/**/"} {
+		g := g
+		probes = append(probes, probe{fmt.Sprintf("dot-gap#%d", i), func(k string) string { return "SELECT t." + g + k + " FROM t" }, func(k string) string { return "t." + k }})
+		probes = append(probes, probe{fmt.Sprintf("dot-gap-before#%d", i), func(k string) string { return "SELECT t" + g + "." + k + " FROM t" }, func(k string) string { return "t." + k }})
+		if strings.TrimSpace(g) != g || strings.HasSuffix(g, "\n") || strings.HasSuffix(g, "/") {
+			probes = append(probes, probe{fmt.Sprintf("column-alias-gap#%d", i), func(k string) string { return "SELECT 1 AS" + g + k + g + "FROM t" }, aliasLine})
+			probes = append(probes, probe{fmt.Sprintf("table-alias-gap#%d", i), func(k string) string { return "SELECT 1 FROM t AS" + g + k + g + "WHERE 1" }, aliasLine})
+		}
+	}
 	for _, k := range kws {
 		idx, mine := w.Case()
 		if !mine {
